@@ -64,12 +64,21 @@ Section C04.
       final table, every import [i] of the package is bound by the first applicable rule
       ([LangSpec.bind_import]): the explicit argument named [i]; else the first spread whose instance
       exports [i], through the graph's alias of that export; else nothing (an implicit import) when
-      [...] is present; and no import is missing. *)
-  Theorem arg_binding_spec pkg args st inst st' :
+      [...] is present; and no import is missing.  Every entry of [t2] is an argument of the new
+      instantiation in the resulting graph ([Graph.get_args]).
+
+      PARTIAL in one respect (full statement: the arguments of [inst] in the resulting graph are EXACTLY
+      the entries of [t2], and the imports without an entry are listed by [Graph.list_imports] as
+      implicit imports): the converse inclusion -- [inst] has no other argument -- needs the edge
+      invariant of C06 ([GraphInv.Inv]: no edge points to a slot that is not yet allocated) threaded
+      through the resolver, which is not done here; the correspondence compares the full argument
+      lists on every generated program. *)
+  Theorem arg_binding_spec_partial pkg args st inst st' :
     new_expr u self_name (eval_expr u self_name) pkg args st = inl (inst, st') ->
     nofree (rs_g st) ->
     exists id pd t1 req recs t2,
       pkg_desc u (rs_g st') id = Some pd /\
+      (forall nm n at_, im_get t2 nm = Some (n, at_) -> In (ru_intern u nm, n) (get_args u (rs_g st') inst)) /\
       (NoDup (map fst (text_items u (pd_imports pd))) ->
         NoDup (map fst t1) /\ length t1 = length (filter is_explicit_arg args) /\
         req = negb (existsb is_fill_arg args) /\
@@ -199,8 +208,17 @@ Section C04.
     gframe (rs_g st) (rs_g st') /\ rs_scope st' = rs_scope st.
   Proof. exact (mframe_eval_expr u self_name e st item st'). Qed.
 
-  (** * 6. each ill-formedness class <-> its diagnostic (at the construct that detects it) *)
-  Theorem illformed_rejected :
+  (** * 6. each ill-formedness class <-> its diagnostic, at the construct that detects it.
+
+      PARTIAL (full statement: for every document [d] in scope, [resolve u d = inr (FErr e)] iff
+      [LangSpec.denote impl_flags_c04 u d = inr c] with [c] the class of [e], and [resolve u d = inl st]
+      iff [denote] gives the composition [st] denotes): what is proved is, for each of the nine classes
+      of the property, the equivalence between the ill-formedness condition and the diagnostic (variant,
+      name, span start) at the function of the resolver that detects it, given that the evaluation
+      reaches that point; the composition of these through expressions and statements into a statement
+      about whole documents -- a simulation between [Resolver.resolve] and [LangSpec.denote] -- is not
+      proved; it is checked on every generated program and fault variant by the correspondence. *)
+  Theorem illformed_rejected_partial :
     (* undefined name *)
     (forall id st, im_get (rs_scope st) (id_string id) = None <->
                    local_item id st = inr (FErr (EUndefinedName (id_string id) (off (id_span id))))) /\
@@ -282,7 +300,7 @@ Example four_argument_forms :
 Proof. exact w_args_model. Qed.
 
 Print Assumptions arg_name_spec.
-Print Assumptions arg_binding_spec.
+Print Assumptions arg_binding_spec_partial.
 Print Assumptions spread_fill_spec.
 Print Assumptions fill_must_be_last.
 Print Assumptions access_spec.
@@ -291,6 +309,6 @@ Print Assumptions export_spread_name_spec.
 Print Assumptions import_name_spec.
 Print Assumptions let_only_names.
 Print Assumptions expressions_only_extend.
-Print Assumptions illformed_rejected.
+Print Assumptions illformed_rejected_partial.
 Print Assumptions access_spec_doc_refuted.
 Print Assumptions export_spread_doc_refuted.
